@@ -746,6 +746,21 @@ def check_other_paths(ctx, samples, opts, fail):
             t.drop_index()
     if nm1 != nm2 or not tc1.equals(tc2, ignore_provenance=True):
         fail("paths:ts_vs_tables", f"TreeSequence.simplify and TableCollection.simplify differ: {nm1} {nm2}")
+    # the same samples in every form a caller may pass them (strided / reversed views, other
+    # integer widths, tuples): the glue must see the same sequence
+    from ..argforms import array_forms
+
+    for form, arg in array_forms(samples):
+        tcf = ctx.ts().dump_tables()
+        try:
+            nmf = tcf.simplify(arg, record_provenance=False, **opts).tolist()
+        except Exception as e:  # noqa
+            fail("paths:argform:" + form, f"simplify(samples as {form}) raised {e!r}")
+            continue
+        if tcf.has_index():
+            tcf.drop_index()
+        if nmf != nm1 or not tcf.equals(tc1, ignore_provenance=True):
+            fail("paths:argform:" + form, f"simplify(samples as {form} of {samples}) differs from the list form: {nmf} vs {nm1}")
     tc3 = ctx.tc.copy()
     n0 = tc3.provenances.num_rows
     nm3 = tc3.simplify(samples, **opts).tolist()
